@@ -14,7 +14,7 @@ set_option linter.unusedSectionVars false
 set_option linter.unusedVariables false
 
 namespace GT.C12
-open GT GT.Dtype
+open GT GT.Dtype GT.Rescale
 
 /-! ## packaging: the dtype decision table -/
 
